@@ -107,6 +107,16 @@ impl std::io::Write for BigSink {
         }
         Ok(b.len())
     }
+    // no phantom `Err(WriteZero)` from the default `write_all` (see c09_pattern::Rec)
+    fn write_all(&mut self, b: &[u8]) -> std::io::Result<()> {
+        for &x in b {
+            if self.len < 256 {
+                self.buf[self.len] = x;
+            }
+            self.len += 1;
+        }
+        Ok(())
+    }
     fn flush(&mut self) -> std::io::Result<()> {
         Ok(())
     }
